@@ -9,8 +9,11 @@ import (
 	"os"
 	"reflect"
 	"regexp"
+	"runtime"
 	"sort"
 	"strings"
+	"sync"
+	"sync/atomic"
 	"time"
 
 	corev1 "k8s.io/api/core/v1"
@@ -306,7 +309,13 @@ func edsDiffClass(a, b *anypb.Any) string {
 	sets := map[string]map[string]bool{"extra": {}, "missing": {}, "changed": {}}
 	addr := func(k string) string { return k[:strings.IndexByte(k, ':')] }
 	tag := func(k string, e *endpointv3.LbEndpoint) string {
-		return addrOrigin(addr(k)) + "/" + strings.ToLower(e.GetHealthStatus().String())
+		t := addrOrigin(addr(k)) + "/" + strings.ToLower(e.GetHealthStatus().String())
+		if addrNote != nil {
+			if n := addrNote(addr(k)); n != "" {
+				t += "/" + n
+			}
+		}
+		return t
 	}
 	for k, ea := range ia {
 		eb, ok := ib[k]
@@ -341,7 +350,56 @@ func edsDiffClass(a, b *anypb.Any) string {
 	if len(parts) == 0 {
 		return "endpoints=other"
 	}
+	// finding F3: an endpoint that its EndpointSlice lists as terminating and that is sent as UNHEALTHY on one side only.
+	// A terminating endpoint is only ever converted to UNHEALTHY when its Service was not known at conversion time
+	// (with the Service known it becomes Terminating/Draining and is not sent as unhealthy), and a later Service event
+	// does not convert the slice again: which side has it depends on the order in which slice and Service arrived.
+	{
+		only := len(sets["extra"])+len(sets["missing"]) > 0
+		for t := range sets["changed"] {
+			// the same endpoint in another locality group / priority is a consequence of the other endpoints differing
+			if !strings.HasSuffix(t, "/group") {
+				only = false
+			}
+		}
+		for _, n := range []string{"extra", "missing"} {
+			for t := range sets[n] {
+				if !strings.HasSuffix(t, "/unhealthy/terminating-in-slice") {
+					only = false
+				}
+			}
+		}
+		if only {
+			return "terminating-endpoint-converted-before-its-service-was-known:" + strings.Join(parts, ":")
+		}
+	}
 	return strings.Join(parts, ":")
+}
+
+// addrNote, when set, says what the harness' own Kubernetes objects know about an endpoint address that is a known
+// trigger: "terminating-in-slice" for an address some live EndpointSlice lists with condition terminating.
+var addrNote func(addr string) string
+
+func (w *world) addrNoteK(addr string) string {
+	if w.kube == nil {
+		return ""
+	}
+	for _, o := range w.kube.objs {
+		sl, ok := o.(*discoveryv1.EndpointSlice)
+		if !ok {
+			continue
+		}
+		for _, e := range sl.Endpoints {
+			if e.Conditions.Terminating != nil && *e.Conditions.Terminating {
+				for _, a := range e.Addresses {
+					if a == addr {
+						return "terminating-in-slice"
+					}
+				}
+			}
+		}
+	}
+	return ""
 }
 
 // classifyDiffs gives every difference of one client at one checkpoint a root-cause hint: EDS by the
@@ -494,15 +552,22 @@ func (w *world) proxyCause(s *server, p proxySpec) string {
 	if w.proxyPodStale[p.name] {
 		return "proxy-pod-relabelled-while-not-ready"
 	}
-	if s.pushes.forcedMergedIntoEndpointsOnly(p.name + "." + p.ns) {
-		return "forced-request-merged-into-endpoint-only-push"
-	}
+	// (finding F9, a ProxyUpdate request merged into an endpoint-only push, was recognised here from the push log until
+	// it was fixed in the tree: 440f299)
 	return ""
+}
+
+// shapeSpecific: classes read off the difference itself that the proxy's own stale state cannot explain.
+func shapeSpecific(class string) bool {
+	return strings.Contains(class, "subject-alt-names-only") || strings.HasPrefix(class, "terminating-endpoint-converted-before-its-service-was-known") ||
+		strings.Contains(class, ":terminating-endpoint-converted-before-its-service-was-known")
 }
 
 // refineCause turns the push-log class of a stale resource into a root-cause class where the input shape says more.
 func (w *world) refineCause(cause string, p proxySpec, t, name string, d diff, class string, held, fresh *anypb.Any) string {
-	if pc := w.proxyCause(w.a, p); pc != "" {
+	sanOnly := t == envoyclient.CDS && held != nil && fresh != nil &&
+		sanRe.ReplaceAllString(resourceText(t, held), "") == sanRe.ReplaceAllString(resourceText(t, fresh), "")
+	if pc := w.proxyCause(w.a, p); pc != "" && !sanOnly {
 		return pc
 	}
 	if strings.HasPrefix(class, "service-exported-to-nobody") {
@@ -520,8 +585,7 @@ func (w *world) refineCause(cause string, p proxySpec, t, name string, d diff, c
 			}
 		}
 	}
-	if t == envoyclient.CDS && held != nil && fresh != nil &&
-		sanRe.ReplaceAllString(resourceText(t, held), "") == sanRe.ReplaceAllString(resourceText(t, fresh), "") {
+	if sanOnly {
 		// the copy differs in the expected peer identities only: the service accounts the push context held when the
 		// cluster was last generated for this client were not those of the final state (finding F5)
 		return "subject-alt-names-only"
@@ -619,6 +683,25 @@ const assertWarmingDefault = true
 // EDS initial_fetch_timeout): the proxy keeps using the old cluster configuration for good.
 func (w *world) warmingCheck(prop, context string, cls []*envoyclient.Client, detail func(*envoyclient.Client) string) {
 	c := w.c
+	// persistence re-check (see regrace) before anything is reported: a cluster whose endpoints are merely on their way
+	// is not one that stays warming
+	warmingNow := func() (n int) {
+		for _, cl := range cls {
+			if cl != nil && !cl.Delta {
+				n += len(cl.Warming())
+			}
+		}
+		return n
+	}
+	if first := warmingNow(); first > 0 {
+		if !regrace(w.live()) {
+			c.Inconclusive("persistence re-check did not quiesce")
+			return
+		}
+		if second := warmingNow(); second < first {
+			w.premature(w.pfx(prop)+":cluster-stays-warming", first-second)
+		}
+	}
 	for _, cl := range cls {
 		if cl == nil {
 			continue
@@ -642,11 +725,63 @@ func (w *world) warmingCheck(prop, context string, cls []*envoyclient.Client, de
 		}
 		fmt.Printf("WARMING %s %s %s: %v %s\n", w.pfx(prop), context, cl.Name, names, extra)
 		if assertWarming {
-			c.Violation(fmt.Sprintf("%s:cluster-stays-warming:%s:%s", w.pfx(prop), protoOf(cl), context),
+			ctx := context
+			if w.st != "" {
+				if cause := w.warmingCause(cl, names); cause != "" {
+					ctx = "cause=" + cause + ":" + context
+					extra += " last pushes: " + strings.Join(w.live().pushes.tail(proxyIDOf(cl), 4), " | ")
+				}
+			}
+			c.Violation(fmt.Sprintf("%s:cluster-stays-warming:%s:%s", w.pfx(prop), protoOf(cl), ctx),
 				fmt.Sprintf("%s client %s: at a quiescent point %d cluster(s) that a CDS response created or changed have not been given endpoints since (%v): a real Envoy keeps them warming for good. %s", w.pfx(prop), cl.Name, len(names), names, extra),
 				map[string]any{"client": cl.Name, "warming": names, "scenario": extra, "history": histText(w.hist, w.applied)})
 		}
 	}
+}
+
+// proxyIDOf: the proxy ID ("name.namespace") of a client ("name/sotw", "name/delta/...").
+func proxyIDOf(cl *envoyclient.Client) string {
+	name := cl.Name
+	if i := strings.IndexByte(name, '/'); i >= 0 {
+		name = name[:i]
+	}
+	for _, p := range proxies {
+		if p.name == name {
+			return p.name + "." + p.ns
+		}
+	}
+	return name
+}
+
+// warmingCause reads the push log: the last push that reached the proxy was not forced and none of its keys names the
+// service of any warming cluster. Its SotW CDS response nevertheless carried those clusters with a new content (every
+// cluster is regenerated from the push context, e.g. with service accounts that entered the endpoint index since the
+// cluster was last generated), while the EDS generator sent only the clusters of the services named by the keys
+// (partial push): the changed cluster is never given endpoints again.
+func (w *world) warmingCause(cl *envoyclient.Client, names []string) string {
+	pl := w.live().pushes
+	pl.mu.Lock()
+	defer pl.mu.Unlock()
+	es := pl.by[proxyIDOf(cl)]
+	for i := len(es) - 1; i >= 0; i-- {
+		e := es[i]
+		if !e.pushed {
+			continue
+		}
+		if e.forced || len(e.out) == 0 {
+			return ""
+		}
+		for _, n := range names {
+			_, _, h, _ := model.ParseSubsetKey(n)
+			for _, k := range e.out {
+				if strings.HasSuffix(k, "/"+string(h)) && !strings.HasPrefix(k, "Endpoints/") {
+					return ""
+				}
+			}
+		}
+		return "cluster-changed-by-cds-of-a-push-whose-partial-eds-skipped-it"
+	}
+	return ""
 }
 
 // ---------------------------------------------------------------------------------------
@@ -696,3 +831,35 @@ func (w *world) stableAfterIdle() bool {
 }
 
 var _ = envoyclient.CDS
+
+// ---------------------------------------------------------------------------------------
+// stall diagnosis (never part of a verdict): a child that makes no progress for two minutes of real time prints all
+// goroutine stacks once, so that a rare stall outside the quiescence watchdog (server construction, teardown, a blocking
+// client call) can be explained from the child log afterwards.
+
+var (
+	progress     atomic.Int64
+	stallWatcher sync.Once
+)
+
+func noteProgress() {
+	progress.Add(1)
+	stallWatcher.Do(func() {
+		go func() {
+			last, since := int64(-1), 0
+			tick := time.NewTicker(10 * time.Second)
+			for range tick.C {
+				if p := progress.Load(); p != last {
+					last, since = p, 0
+					continue
+				}
+				since++
+				if since == 12 {
+					buf := make([]byte, 8<<20)
+					buf = buf[:runtime.Stack(buf, true)]
+					fmt.Printf("STALL-DUMP no progress for 120 s\n%s\nSTALL-DUMP end\n", buf)
+				}
+			}
+		}()
+	})
+}
